@@ -25,7 +25,7 @@ def parseHex (s : String) : Option Float :=
 def hexOf (x : Float) : String :=
   let n := x.toBits.toNat
   let digs := (List.range 16).map (fun k => Nat.toDigits 16 ((n >>> (4 * (15 - k))) % 16))
-  String.mk (digs.foldr (fun d acc => d ++ acc) [])
+  String.ofList (digs.foldr (fun d acc => d ++ acc) [])
 
 def fnat (n : Nat) : Float := Float.ofNat n
 
@@ -108,7 +108,7 @@ def answer (line : String) : String :=
 partial def loop (h : IO.FS.Stream) (out : IO.FS.Stream) : IO Unit := do
   let line ← h.getLine
   if line.isEmpty then return
-  out.putStrLn (answer (line.trimRight))
+  out.putStrLn (answer ((line.replace "\n" "").replace "\r" ""))
   loop h out
 
 def main : IO Unit := do
